@@ -626,6 +626,12 @@ class StateMachine:
         if not (self.__should_engage or state is not None and state.must_finish):
             state = None
 
+        # the machine stops here: always go through done(), also when a
+        # default state takes over
+        if state is None and self.__engaged and not done_called:
+            done_called = True
+            self.done()
+
         # if there is no state to execute and there is a default
         # state, do the default state
         if state is None and self.__default_state is not None:
